@@ -905,6 +905,9 @@ class BlockNode(AstNode, NamespaceMixin):
     def __init__(self, parent, format=None, options=None, **kwargs):
         # From arguments
         self.parent = parent
+        # Declarations are added to parent; a block is the same
+        # kind of container as the node it is in.
+        self.nodename = parent.nodename
 
         self.classes = parent.classes
         self.enums = parent.enums
